@@ -44,6 +44,15 @@ def gen_view_world(r, hmax=7, wmax=7, occluders=False):
     h, w = r.randint(1, hmax), r.randint(1, wmax)
     types = list(BUILTIN_TYPES)
     world = W.gen_world(r, h, w, types, COLORS, density=r.choice([0.2, 0.4, 0.6]) if not occluders else r.choice([0.3, 0.5]), valid_start=False)
+    if not occluders and r.random() < 0.08:
+        # one object class everywhere, instances differing in colour / status / content
+        t = r.choice(['Key', 'Door', 'Exit', 'Telepod', 'Beacon', 'Box'])
+        for y in range(h):
+            for x in range(w):
+                c = r.choice(COLORS)
+                world['cells'][y][x] = {'Key': ['Key', c], 'Exit': ['Exit', c], 'Telepod': ['Telepod', c], 'Beacon': ['Beacon', c],
+                                        'Door': ['Door', r.choice(['OPEN', 'CLOSED', 'LOCKED']), c], 'Box': ['Box', ['Key', c]]}[t]
+        world['monotype'] = t
     if occluders:
         for y in range(h):
             for x in range(w):
